@@ -17,17 +17,23 @@
 (*        if lw = w: next += max(w - next, 0) / slide * slide  (skip       *)
 (*        slots the watermark already closed); push [next, next + size)    *)
 (*     assign: skip_while(e <= ts).take_while(s <= ts)                     *)
-(*   Watermark(w): lw = w; drain the prefix of slots with e < w (a slot    *)
-(*        whose end EQUALS the watermark stays until the next one - named  *)
-(*        deviation, finding F4 for C06); active ones -> Timestamped(_, e) *)
+(*   Watermark(w): lw = w; drain the prefix of slots with e <= w; active   *)
+(*        ones -> Timestamped(_, e).  (FIX_F4 = FALSE: the code before     *)
+(*        commit c47ed20 drained e < w only - a slot whose end EQUALS the  *)
+(*        watermark stayed until the next one and its result, stamped e,   *)
+(*        followed the forwarded Watermark(e): finding F4 for C06, fixed)  *)
 (*   FlushAndRestart | Terminate: drain all, active ones -> results        *)
 (*                                                                         *)
 (* The wrapper feeds, for every (size, slide <= size), every sequence of   *)
 (* timestamped elements (timestamps 0..TMAX, any arrival order the         *)
 (* watermark contract allows: ts > last watermark) and watermarks          *)
 (* (1..WMAX, increasing) with at most MAXE elements and MAXW watermarks    *)
-(* per iteration.  BEFORE = FALSE excludes exactly the input class of F3   *)
-(* (an element below the start of the key's oldest open slot).             *)
+(* per iteration.  F3's input class (an element below the start of the     *)
+(* key's oldest open slot) is fed only with BEFORE = TRUE; the ids of      *)
+(* such elements are remembered in `ba`, and the main invariant C13_All    *)
+(* excuses exactly their loss (everything else is still required of those  *)
+(* behaviours).  EventTimeWindow_finding.cfg checks the unexcused          *)
+(* predicate and must still fail.                                          *)
 (***************************************************************************)
 EXTENDS Naturals, Integers, Sequences, FiniteSets, TLC, Json, WindowProps
 
@@ -38,7 +44,8 @@ CONSTANTS SIZES,    \* window sizes explored, e.g. 1..4 (slides 1..size)
           MAXW,     \* watermarks per iteration
           ITERS,
           KEYS,
-          BEFORE    \* TRUE: also feed elements below the anchor (F3's input class)
+          BEFORE,   \* TRUE: also feed elements below the anchor (F3's input class)
+          FIX_F4    \* TRUE: the code as of c47ed20 (a watermark >= end fires); FALSE: before
 
 ---------------------------------------------------------------------------
 EvInit == [ws |-> <<>>, lw |-> NOTS]
@@ -70,7 +77,7 @@ EvStep(p, st, e) ==
                        THEN [ws1[i] EXCEPT !.els = Append(@, e.v), !.active = TRUE] ELSE ws1[i]]
          IN [st |-> [st EXCEPT !.ws = ws2], out |-> <<>>]
     [] e.k = "W" ->
-         LET n == PrefixLen(st.ws, LAMBDA w : w.e < e.ts)
+         LET n == PrefixLen(st.ws, LAMBDA w : IF FIX_F4 THEN w.e <= e.ts ELSE w.e < e.ts)
          IN [st |-> [ws |-> SubSeq(st.ws, n + 1, Len(st.ws)), lw |-> e.ts],
              out |-> Fired(SubSeq(st.ws, 1, n))]
     [] e.k \in {"R", "X"} ->
@@ -83,14 +90,15 @@ EvRecycle(st) == st.ws = <<>>
 BeforeAnchor(st, ts) == st.ws # <<>> /\ ts < st.ws[1].s
 
 ---------------------------------------------------------------------------
-VARIABLES p, live, st, inp, outs, it, cnt, nw, lastw, nid, done
-vars == <<p, live, st, inp, outs, it, cnt, nw, lastw, nid, done>>
+VARIABLES p, live, st, inp, outs, it, cnt, nw, lastw, nid, done,
+          ba      \* ids of the elements that were fed below the anchor (F3's input class)
+vars == <<p, live, st, inp, outs, it, cnt, nw, lastw, nid, done, ba>>
 
 Init ==
   /\ p \in {q \in [size : SIZES, slide : 1..MaxOf(SIZES)] : q.slide <= q.size}
   /\ live = {} /\ st = [k \in KEYS |-> EvInit]
   /\ inp = <<>> /\ outs = <<>> /\ it = 0 /\ cnt = 0 /\ nw = 0 /\ lastw = NOTS /\ nid = 1
-  /\ done = FALSE
+  /\ done = FALSE /\ ba = {}
 
 RECURSIVE SortedSeq(_)
 SortedSeq(S) == IF S = {} THEN <<>> ELSE LET m == MinOf(S) IN <<m>> \o SortedSeq(S \ {m})
@@ -111,6 +119,7 @@ Feed(key, ts) ==
         /\ inp' = Append(inp, e)
         /\ outs' = Append(outs, [j \in 1..Len(r.out) |-> Res(key, r.out[j].g, r.out[j].ts)])
   /\ live' = live \cup {key} /\ cnt' = cnt + 1 /\ nid' = nid + 1
+  /\ ba' = IF BeforeAnchor(st[key], ts) THEN ba \cup {nid} ELSE ba
   /\ UNCHANGED <<p, it, nw, lastw, done>>
 
 (* a control element goes to every existing manager; managers without open slots are dropped *)
@@ -120,7 +129,7 @@ Control(e) ==
   /\ outs' = Append(outs, CtrlOuts(SortedSeq(live), e))
   /\ live' = {k \in live : ~EvRecycle(nst[k])}
   /\ st' = [k \in KEYS |-> IF k \in live /\ ~EvRecycle(nst[k]) THEN nst[k] ELSE EvInit]
-  /\ UNCHANGED <<p, nid>>
+  /\ UNCHANGED <<p, nid, ba>>
 
 Wm(w) ==
   /\ ~done /\ it < ITERS /\ nw < MAXW /\ w > lastw
@@ -151,10 +160,14 @@ C13_Dup      == Only("tumbling_dup") = {} /\ {v \in Only("sliding_cover") : v.ca
 C13_Early    == Only("fired_early") = {}
 C13_Late     == Only("fired_late") = {}
 (* the predicates are monotone in the history (a violation of a prefix stays one), every behaviour
-   can be completed within the bounds: judging the complete behaviours judges all prefixes *)
-C13_All == done => LET v == Viol IN IF v = {} THEN TRUE ELSE PrintT(<<"MODELVIOL", v>>) /\ FALSE
-(* C06 at the operator output: fails on the code as written (F4) *)
+   can be completed within the bounds: judging the complete behaviours judges all prefixes.
+   Excused: the loss of an element that was fed below the anchor (finding F3, open). *)
+Excused(v) == v.kind \in {"tumbling_lost", "sliding_cover"} /\ v.cause = "lost" /\ v.v \in ba
+C13_All == done => LET v == {x \in Viol : ~Excused(x)} IN
+                    IF v = {} THEN TRUE ELSE PrintT(<<"MODELVIOL", v>>) /\ FALSE
+(* C06 at the operator output: holds with FIX_F4, fails without (F4) *)
 C06_LateResult == LateResultViol(inp, outs) = {}
+C06_Late == done => C06_LateResult
 
 TypeOK == \A k \in KEYS : \A i \in 1..(Len(st[k].ws) - 1) : st[k].ws[i].s < st[k].ws[i + 1].s
 
